@@ -958,6 +958,16 @@ pub fn run_scenario(sc: &Scenario, prefix: &[u32], expect_n: &[u32], config_path
                 nth_permutation(n, k)
             }));
         }
+        {
+            let sched = sched.clone();
+            pgcat::verif::choice::set_shard_chooser(Box::new(move |n| {
+                if n < 2 {
+                    return 0;
+                }
+                let labels = || (0..n).map(|k| format!("any-shard={}", k)).collect();
+                sched.lock().choose(n, 2, labels)
+            }));
+        }
         pgcat::query_router::QueryRouter::setup();
         std::fs::write(config_path, &sc.toml).expect("write config");
         let csm: pgcat::pool::ClientServerMap = Arc::new(Mutex::new(std::collections::HashMap::new()));
